@@ -187,6 +187,7 @@ class JobResult:
         self.binary = None
         self.workdir = None
         self.peak = None
+        self.cached = False
 
 
 def _cc_base(scr, extra_defs=()):
@@ -501,8 +502,89 @@ def run_job(scr, job, small=False, trace_prop=None, timeout=None):
 
 
 # --------------------------------------------------------------------------
+# Result memo: the verdicts of a job are a function of the sources it was built
+# from (the scratch copy of /repo's working tree, /verif's own files) and of
+# the job description.  Every run rebuilds the scratch tree from /repo; when
+# the same property-independent job was already discharged for byte-identical
+# inputs (typically by the check of another property minutes earlier) its
+# verdicts are reused.  XV_NO_CACHE=1 disables this.
+# --------------------------------------------------------------------------
+
+_vhash = None
+
+
+def verif_hash():
+    global _vhash
+    if _vhash is None:
+        h = hashlib.sha256()
+        for sub in ("include", "models", "contracts", "harness", "spec", "jobs", "xvlib", "replay"):
+            for root, _, files in sorted(os.walk(os.path.join(VERIF, sub))):
+                for f in sorted(files):
+                    if f.endswith((".pyc",)):
+                        continue
+                    h.update(f.encode())
+                    h.update(open(os.path.join(root, f), "rb").read())
+        rc, so, _, _, _ = run(["cbmc", "--version"])
+        h.update(so.encode())
+        _vhash = h.hexdigest()
+    return _vhash
+
+
+def cache_path(scr, job, small):
+    if os.environ.get("XV_NO_CACHE"):
+        return None
+    if not hasattr(scr, "_thash"):
+        scr._thash = scr.tree_hash()
+    desc = json.dumps({k: v for k, v in job.items() if k not in ("fn",)}, sort_keys=True, default=str)
+    key = hashlib.sha256((scr._thash + verif_hash() + desc + str(small)).encode()).hexdigest()[:32]
+    d = os.path.join(VERIF, ".cache")
+    os.makedirs(d, exist_ok=True)
+    return os.path.join(d, key + ".json")
+
+
+def cache_load(path, job):
+    try:
+        doc = json.load(open(path))
+    except (OSError, ValueError):
+        return None
+    res = JobResult(job["name"])
+    res.solver_s, res.wall_s = doc["solver_s"], doc["wall_s"]
+    res.cmds, res.warnings = doc["cmds"], doc["warnings"]
+    res.loops_contracted, res.loops_unwound = doc["loops_contracted"], doc["loops_unwound"]
+    res.cached = True
+    for o in doc["obligations"]:
+        res.obligations.append(Obligation(job["name"], o["name"], o["desc"], o["status"], o["loc"]))
+    return res
+
+
+def cache_store(path, res):
+    if res.error:
+        return
+    doc = {"solver_s": res.solver_s, "wall_s": res.wall_s, "cmds": res.cmds, "warnings": res.warnings,
+           "loops_contracted": res.loops_contracted, "loops_unwound": res.loops_unwound,
+           "obligations": [{"name": o.name, "desc": o.desc, "status": o.status,
+                            "loc": {k: v for k, v in (o.loc or {}).items() if k in ("file", "line", "function")}}
+                           for o in res.obligations]}
+    tmp = path + ".tmp%d" % os.getpid()
+    json.dump(doc, open(tmp, "w"))
+    os.replace(tmp, path)
+
+
+# --------------------------------------------------------------------------
 # Scheduling
 # --------------------------------------------------------------------------
+
+TIER = {"tier": "quick"}
+
+
+def active_cases(job):
+    """All cases in the thorough tier; the job's declared quick subset (if
+    any) in the quick tier - the evidence then records the reduced domain."""
+    if TIER["tier"] == "quick" and job.get("cases_quick"):
+        keep = set(job["cases_quick"])
+        return [c for c in job["cases"] if c[0] in keep]
+    return job["cases"]
+
 
 def expand_cases(job):
     """A job may partition its input space into exhaustive cases
@@ -513,7 +595,7 @@ def expand_cases(job):
     if not job.get("cases"):
         return [job]
     subs = []
-    for case in job["cases"]:
+    for case in active_cases(job):
         label, cond = case[0], case[1]
         sj = dict(job)
         sj["name"] = "%s#%s" % (job["name"], label)
@@ -531,6 +613,7 @@ def merge_cases(job, subresults):
     order = []
     for sr in subresults:
         res.solver_s += sr.solver_s
+        res.cached = res.cached or sr.cached
         res.wall_s = max(res.wall_s, sr.wall_s)
         res.cmds = sr.cmds or res.cmds
         res.warnings += sr.warnings
@@ -578,7 +661,12 @@ def run_jobs(scr, jobs, small=False):
             state["mem"] += need
             state["running"] += 1
         try:
-            r = run_job(scr, job, small=small)
+            cp = cache_path(scr, job, small)
+            r = cache_load(cp, job) if cp else None
+            if r is None:
+                r = run_job(scr, job, small=small)
+                if cp:
+                    cache_store(cp, r)
         finally:
             with lock:
                 state["mem"] -= need
@@ -597,7 +685,7 @@ def run_jobs(scr, jobs, small=False):
     final = {}
     for name, pj in parents.items():
         if pj.get("cases"):
-            subs = [results["%s#%s" % (name, c[0])] for c in pj["cases"]]
+            subs = [results["%s#%s" % (name, c[0])] for c in active_cases(pj)]
             final[name] = merge_cases(pj, subs)
         else:
             final[name] = results[name]
